@@ -166,6 +166,20 @@ func init() {
 		}
 	}, pre: func(bp *blockPlan) bool { return bp.version < 4 }})
 
+	// BIP94: the first block of a retarget period may not be more than 600 s
+	// older than its parent.
+	timewarp := func(name, class string, back int64) {
+		reg(&mutation{name: name, class: class, header: func(bp *blockPlan) {
+			d := &bp.w.Net.Diff
+			if d.BIP94 && !d.NoRetarget && bp.height%d.interval() == 0 && bp.parent.H.ts-back > bp.parent.mtp() {
+				bp.ts = bp.parent.H.ts - back
+				bp.flag = name
+			}
+		}, pre: func(bp *blockPlan) bool { return bp.flag == name }})
+	}
+	timewarp("bip94-timewarp", ClsHeader, 601)
+	timewarp("bip94-timewarp-at-limit", ClsValid, 600)
+
 	// ---- block-context class -----------------------------------------
 	reg(&mutation{name: "bip34-wrong-height", class: ClsBlock, pre: func(bp *blockPlan) bool {
 		if bp.height < bp.w.Net.BIP34 {
